@@ -269,7 +269,7 @@ func (ld *Loaded) runInits() error {
 
 func newCtx(ld *Loaded) *Ctx {
 	return &Ctx{ld: ld, objCounter: ld.baseObjN + 1000, replace: map[string]*ssa.Function{}, maxUnroll: 5000,
-		encoded: map[string]int{}, secret: map[string]bool{}, contractUse: map[string]int{}, asmFuncs: ld.asmFuncsOrNil(), asserted: map[*Term]bool{}}
+		encoded: map[string]int{}, secret: map[string]bool{}, contractUse: map[string]int{}, asmFuncs: ld.asmFuncsOrNil(), asserted: map[*Term]bool{}, tainted: map[string]bool{}, secretMemo: map[*Term]bool{}}
 }
 
 func atoiDef(s string, d int) int {
